@@ -147,8 +147,11 @@ func checkC02Negation(c *Ctx) {
 // model given with Model() - and there are two sibling builders of the DELETE conditions (the hard-delete
 // executor and the soft-delete modifier).  Both must read both sources, the second one from Statement.Model.
 func checkC02PkSources(c *Ctx) {
+	checkPkSources(c, c.Rule("C02.pk-sources", "SIBLINGS(delete builders): primary-key conditions are taken from Statement.ReflectValue and from Statement.Model", 2))
+}
+
+func checkPkSources(c *Ctx, r *Rule) {
 	p := c.P
-	r := c.Rule("C02.pk-sources", "SIBLINGS(delete builders): primary-key conditions are taken from Statement.ReflectValue and from Statement.Model", 2)
 	gif := p.FuncDecl(pkgSchema, "GetIdentityFieldValuesMap").Obj
 	stmtT := p.Named(pkgGorm, "Statement")
 	rvF, modelF, pfF := p.Field(stmtT, "ReflectValue"), p.Field(stmtT, "Model"), p.Field(p.Named(pkgSchema, "Schema"), "PrimaryFields")
